@@ -22,7 +22,7 @@ type SpecFunc struct {
 	Ret       string
 	Body      *SExpr // nil => uninterpreted
 	Rec       bool
-	MaxUnfold int // own unfolding budget (rec N)
+	MaxUnfold int  // own unfolding budget (rec N)
 	Hidden    bool // recursive definition is only unfolded in obligations that `reveal` it
 	Decreases *SExpr
 	Opaque    bool
@@ -45,6 +45,15 @@ type Lemma struct {
 	Axiom     bool      // trusted, not proved
 	Props     []string
 	Src       string
+}
+
+type StmtHint struct {
+	Where  string
+	File   string
+	Line   int
+	Use    *SExpr
+	Assert *Clause
+	used   bool
 }
 
 type LoopSpec struct {
@@ -75,54 +84,55 @@ type IterProto struct {
 }
 
 type FuncContract struct {
-	Pkg      string
-	Key      string // "Recv.Name" or "Name"
-	Requires []*Clause
-	Ensures  []*Clause
-	Loops    map[int]*LoopSpec
-	Calls    map[int]*CallSpec
-	Assigns  []string
-	Pure     bool
-	Trusted  bool // contract assumed, body not verified (reason required)
-	TrustWhy string
-	Arith    string
-	Props    []string
-	ProtoTargets []string // per ProtoUses entry: "ret2", "call8" or "" (all protocol obligations)
-	ProtoUses []*SExpr // lemma instances for the iteration-protocol obligations; $j names the arbitrary index
-	RetHaves []*Clause // proved at every return site (in order), then assumed for the ensures clauses
-	RetUses  []*SExpr
-	EntryUses []*SExpr
-	Unfold   int
-	Iter     *IterProto
-	Decreases *SExpr // for recursive functions
-	Ghosts   []SParam
-	Src      string
-	NoSafety bool
-	RetLets  map[int]map[string]*SExpr
-	Placeholder bool // declared in an *_api_verif.go file: replaced by a contract of the same key elsewhere
-	PureAs   string // the (deterministic, frame-free) result is this uninterpreted spec function of receiver and arguments
-	Reveal   []string
-	Only     []string // when set: only obligations whose name (after #) has one of these prefixes are generated; the rest is reported as not covered
-	Modifies []string // heap fields ("Type.field") that may change on pre-existing objects
-	Dead     []string // cover obligations expected to be unreachable under the precondition (suffix match)
-	Skips    []string // "file.go:LINE": an unsupported construct on that line drops the path (reported as not verified)
-	SkipWhy  []string
-	Free     []string // parameters exempt from the exact-mode domain assumption (may hold +-Inf)
+	Pkg          string
+	Key          string // "Recv.Name" or "Name"
+	Requires     []*Clause
+	Ensures      []*Clause
+	Loops        map[int]*LoopSpec
+	Calls        map[int]*CallSpec
+	Assigns      []string
+	Pure         bool
+	Trusted      bool // contract assumed, body not verified (reason required)
+	TrustWhy     string
+	Arith        string
+	Props        []string
+	ProtoTargets []string  // per ProtoUses entry: "ret2", "call8" or "" (all protocol obligations)
+	ProtoUses    []*SExpr  // lemma instances for the iteration-protocol obligations; $j names the arbitrary index
+	RetHaves     []*Clause // proved at every return site (in order), then assumed for the ensures clauses
+	RetUses      []*SExpr
+	EntryUses    []*SExpr
+	Unfold       int
+	Iter         *IterProto
+	Decreases    *SExpr // for recursive functions
+	Ghosts       []SParam
+	Src          string
+	NoSafety     bool
+	RetLets      map[int]map[string]*SExpr
+	Placeholder  bool   // declared in an *_api_verif.go file: replaced by a contract of the same key elsewhere
+	PureAs       string // the (deterministic, frame-free) result is this uninterpreted spec function of receiver and arguments
+	Reveal       []string
+	Only         []string   // when set: only obligations whose name (after #) has one of these prefixes are generated; the rest is reported as not covered
+	Modifies     []string   // heap fields ("Type.field") that may change on pre-existing objects
+	Dead         []string   // cover obligations expected to be unreachable under the precondition (suffix match)
+	StmtHints    []StmtHint // lemma instances / assertions placed before the statement starting on a source line
+	Skips        []string   // "file.go:LINE": an unsupported construct on that line drops the path (reported as not verified)
+	SkipWhy      []string
+	Free         []string // parameters exempt from the exact-mode domain assumption (may hold +-Inf)
 }
 
 type Contracts struct {
 	LoadErrors []string
-	Specs  map[string]*SpecFunc // key pkg.name
-	Lemmas map[string]*Lemma
-	Funcs  map[string]*FuncContract // key pkg.Key
-	Order  []string                 // lemma order
+	Specs      map[string]*SpecFunc // key pkg.name
+	Lemmas     map[string]*Lemma
+	Funcs      map[string]*FuncContract // key pkg.Key
+	Order      []string                 // lemma order
 }
 
 var directiveKW = map[string]bool{
 	"spec": true, "lemma": true, "axiom": true, "func": true, "requires": true, "ensures": true,
 	"loop": true, "call": true, "assigns": true, "pure": true, "trusted": true, "arith": true,
 	"decreases": true, "induction": true, "use": true, "props": true, "ret": true, "entry": true,
-	"unfold": true, "iter": true, "ghost": true, "opaque": true, "nosafety": true, "have": true, "free": true, "dead": true, "modifies": true, "reveal": true, "proto": true, "only": true, "pureas": true, "extern": true, "skip": true,
+	"unfold": true, "iter": true, "ghost": true, "opaque": true, "nosafety": true, "have": true, "free": true, "dead": true, "modifies": true, "reveal": true, "proto": true, "only": true, "pureas": true, "extern": true, "skip": true, "stmt": true,
 }
 
 // collectAnnotations returns the //@ lines of a file, with positions.
@@ -278,6 +288,9 @@ func (cs *Contracts) parseItem(pkg string, it item, w, where string, pcurF **Fun
 			if p.isOp("{") {
 				p.next()
 				sf.Body = p.parseExpr()
+				if usesOld(sf.Body) {
+					panic(w + ": old(..) is not allowed in a spec function body (spec functions are single-state; use a twostate lemma)")
+				}
 				p.expectOp("}")
 			}
 			if prev, ok := cs.Specs[pkg+"."+sf.Name]; ok && prev.Body != nil && sf.Body == nil {
@@ -387,6 +400,25 @@ func (cs *Contracts) parseItem(pkg string, it item, w, where string, pcurF **Fun
 				why = f[1]
 			}
 			curF.SkipWhy = append(curF.SkipWhy, why)
+		case "stmt":
+			f := strings.SplitN(strings.TrimSpace(it.text), " ", 3)
+			if len(f) < 3 || (f[1] != "use" && f[1] != "assert") {
+				panic(w + ": stmt file.go:LINE use L(args) | stmt file.go:LINE assert Label: expr")
+			}
+			h := StmtHint{Where: f[0]}
+			if i := strings.LastIndex(f[0], ":"); i > 0 {
+				h.File = f[0][:i]
+				fmt.Sscan(f[0][i+1:], &h.Line)
+			}
+			if h.Line == 0 {
+				panic(w + ": stmt needs file.go:LINE")
+			}
+			if f[1] == "use" {
+				h.Use = parseExprText(f[2], w)
+			} else {
+				h.Assert = parseClause(f[2], w)
+			}
+			curF.StmtHints = append(curF.StmtHints, h)
 		case "only":
 			curF.Only = append(curF.Only, strings.FieldsFunc(it.text, func(r rune) bool { return r == ',' || r == ' ' })...)
 		case "proto":
@@ -584,4 +616,19 @@ func (cs *Contracts) funcKeys() []string {
 	}
 	sort.Strings(ks)
 	return ks
+}
+
+func usesOld(e *SExpr) bool {
+	if e == nil {
+		return false
+	}
+	if e.Kind == "call" && len(e.Args) > 0 && e.Args[0].Kind == "ident" && e.Args[0].Name == "old" {
+		return true
+	}
+	for _, a := range e.Args {
+		if usesOld(a) {
+			return true
+		}
+	}
+	return false
 }
